@@ -136,7 +136,7 @@ PROPS["C03"] = {
 PROPS["C05"] = {
     "mir": "c05",
     "level": "other",
-    "explanation": "Symbolic path-condition checking over the real MIR of CompactionHandover::commit_batch: the index is changed only if every output directory exists, only under the shard flush lock, the live list is updated only after a successful index save, inputs are retired before outputs are inserted, and only drained labels are retired from the live list and caches - each decided by z3 within the loop unrolling bound. B-4: SegmentIndex::retire_uid_from_labels / remove_labels compute, for every u32 id, the same (level, offset) key SegmentIndexTree::insert files the entry under (callee summaries inlined by substitution; machine arithmetic decided through a mod-2^32 integer encoding; counterexamples replayed on the real SegmentIndex). B-5: every MergePlan of KWayCountPolicy::plan carries its own fresh RangeAllocator::next_for_level(level_to) result. B-2d: commit_batch returns Ok only after the live list was updated. B-6: a small model of a compaction run cut short at each step boundary, composed from facts read from the MIR of ShardContext::new, SegmentIdLoader::load, QueryPlan::segment_maybe_contains_uid and the compaction worker (what a new process lists as live and decides to read); z3 finds the crash points at which an event is readable from an input and from the output, and the point 'index committed, inputs not yet reclaimed' is replayed on the real engine with a real background compaction (known finding F-C05-a). B-7: ZoneCursorLoader::load_all fails when an input segment's zone metadata cannot be loaded.",
+    "explanation": "Symbolic path-condition checking over the real MIR of CompactionHandover::commit_batch: the index is changed only if every output directory exists, only under the shard flush lock, the live list is updated only after a successful index save, inputs are retired before outputs are inserted, and only drained labels are retired from the live list and caches - each decided by z3 within the loop unrolling bound. B-4: SegmentIndex::retire_uid_from_labels / remove_labels compute, for every u32 id, the same (level, offset) key SegmentIndexTree::insert files the entry under (callee summaries inlined by substitution; machine arithmetic decided through a mod-2^32 integer encoding; counterexamples replayed on the real SegmentIndex). B-5: every MergePlan of KWayCountPolicy::plan carries its own fresh RangeAllocator::next_for_level(level_to) result. B-2d: commit_batch returns Ok only after the live list was updated. B-6: a small model of a compaction run cut short at each step boundary, composed from facts read from the MIR of ShardContext::new, SegmentIdLoader::load, QueryPlan::segment_maybe_contains_uid and the compaction worker (what a new process lists as live and decides to read); z3 finds the crash points at which an event is readable from an input and from the output, and the point 'index committed, inputs not yet reclaimed' is replayed on the real engine with a real background compaction (known finding F-C05-a). B-7: ZoneCursorLoader::load_all fails when an input segment's zone metadata cannot be loaded. B-8: ZoneMerger::next_zone pushes every row a cursor hands out onto the output batch (no path drops a row between next_row = Some and the push).",
     "trusted_base": MIR_TRUSTED,
     "outside": [
         "equality of query answers before and after compaction (needs the k-way merge, HashMap-bound)",
